@@ -9,22 +9,36 @@
 //! The request line carries the dumped constraint system and assignment table; the
 //! implementation's answer line carries real and mock verdicts (and the failure classes the mock
 //! checker reports); the Lean model must reproduce the line. Oracle: real == mock.
+//!
+//! Identity-level tie (`ids` lines): the real verifier is run with the `verif-hooks` identity
+//! log on and wrapped in `valrec::ValTranscript`, so that every scalar it reads from the proof
+//! and every challenge it squeezes is known in order. Request = constraint-system dump (shape,
+//! gate / lookup / trash expressions, permutation columns, query lists, degree, blinding
+//! factors) + plain instance values + that ordered stream; implementation answer = the identity
+//! values `vanishing::verifier::PartiallyEvaluated::verify` folded, in order, with `y`, `x^n`
+//! and `expected_h_eval`. The Lean model labels the stream with its own schedule model,
+//! recomputes `x^n`, `l_0`, `l_last`, `l_blind` and every identity value and must reproduce the
+//! line (count, order, values). `domain` lines tie `omega` and `F::DELTA`.
+
+mod valrec;
 
 use blake2b_simd::{blake2b, State as Blake2bState};
-use ff::{Field, FromUniformBytes};
+use ff::{Field, FromUniformBytes, PrimeField};
 use midnight_curves::{Bls12, Fq as F, G1Projective};
 use midnight_proofs::{
     dev::{MockProver, VerifyFailure},
-    plonk::{commit_to_instances, create_proof, keygen_pk, keygen_vk_with_k, prepare, ProvingKey},
+    plonk::{commit_to_instances, create_proof, keygen_pk, keygen_vk_with_k, prepare, Any, ProvingKey},
     poly::{
         commitment::Guard,
         kzg::{params::ParamsKZG, KZGCommitmentScheme},
     },
     transcript::{CircuitTranscript, Transcript},
 };
+use midnight_proofs::plonk::verif_hooks::{clear_identity_log, take_identity_log};
 use mzkh::{
     copyrec::{requested_copies, CellRef},
-    csdump::{cs_string, requested_copies_hold, table_string_requested},
+    csdump::{cs_string, expr_string, requested_copies_hold, table_string_requested},
+    shape::shape_string,
     family::{sample_params, FamCircuit, FamParams, FaultKind, GateKind, LookupKind},
     Ctx,
 };
@@ -50,6 +64,8 @@ struct Member {
     params: ParamsKZG<Bls12>,
     pk: ProvingKey<F, Scheme>,
     cs_line: String,
+    /// shape + constraint-system dump of the `ids` lines
+    ids_cs: String,
     n_challenges: usize,
     /// copy constraints requested by the circuit (independent of the keygen Assembly)
     copies: Vec<(CellRef, CellRef)>,
@@ -64,9 +80,10 @@ fn setup_member(fp: &FamParams, seed: u64) -> Member {
             Ok(vk) => {
                 let pk = keygen_pk(vk, &c).unwrap();
                 let cs_line = cs_string(pk.get_vk().cs());
+                let ids_cs = ids_cs_string(&pk, k);
                 let n_challenges = pk.get_vk().cs().num_challenges();
                 let copies = requested_copies::<F, _>(&c);
-                return Member { fp: fp.clone(), k, params, pk, cs_line, n_challenges, copies };
+                return Member { fp: fp.clone(), k, params, pk, cs_line, ids_cs, n_challenges, copies };
             }
             Err(_) if k < 10 => k += 1,
             Err(e) => panic!("keygen failed: {e:?}"),
@@ -74,35 +91,117 @@ fn setup_member(fp: &FamParams, seed: u64) -> Member {
     }
 }
 
-/// Real prover + verifier on (possibly faulted) circuit and instances.
-fn real_verdict(m: &Member, circuit: &FamCircuit, insts: &[Vec<F>], seed: u64) -> Result<bool, String> {
+fn list(v: Vec<String>, sep: &str) -> String {
+    if v.is_empty() {
+        "-".to_string()
+    } else {
+        v.join(sep)
+    }
+}
+
+/// What the verifier reads of `vk`: `shape_string` (phases, the three query lists, numbers of
+/// lookups / trash arguments / permutation columns, `degree()`, `blinding_factors()`, `k`)
+/// followed by the polynomials of every gate (`gp` = polynomials per gate), the lookup and
+/// trash arguments and the permutation columns (`pcols`).
+fn ids_cs_string(pk: &ProvingKey<F, Scheme>, k: u32) -> String {
+    let cs = pk.get_vk().cs();
+    let gp: Vec<String> = cs.gates().iter().map(|g| g.polynomials().len().to_string()).collect();
+    let gates: Vec<String> = cs.gates().iter().flat_map(|g| g.polynomials().iter().map(expr_string)).collect();
+    let lookups: Vec<String> = cs
+        .lookups()
+        .iter()
+        .map(|l| {
+            format!(
+                "{}>{}",
+                list(l.input_expressions().iter().map(expr_string).collect(), "|"),
+                list(l.table_expressions().iter().map(expr_string).collect(), "|")
+            )
+        })
+        .collect();
+    let trash: Vec<String> = cs
+        .trashcans()
+        .iter()
+        .map(|t| {
+            format!(
+                "{}>{}",
+                expr_string(t.selector()),
+                list(t.constraint_expressions().iter().map(expr_string).collect(), "|")
+            )
+        })
+        .collect();
+    let pcols: Vec<String> = cs
+        .permutation()
+        .get_columns()
+        .iter()
+        .map(|c| {
+            let kind = match c.column_type() {
+                Any::Advice(_) => "a",
+                Any::Fixed => "f",
+                Any::Instance => "i",
+            };
+            format!("{kind}{}", c.index())
+        })
+        .collect();
+    format!(
+        "{} gp={} gates={} lookups={} trash={} pcols={}",
+        shape_string(pk, k),
+        list(gp, ","),
+        list(gates, ";"),
+        list(lookups, ";"),
+        list(trash, ";"),
+        list(pcols, ",")
+    )
+}
+
+/// Real prover on (possibly faulted) circuits and their instances (one entry per proof).
+/// `Ok(None)`: the prover itself refuses (e.g. a lookup input is not in the table).
+fn prove(m: &Member, circuits: &[FamCircuit], insts: &[Vec<Vec<F>>], seed: u64) -> Result<Option<Vec<u8>>, String> {
     let nc = m.fp.n_committed;
-    let inst_refs: Vec<&[F]> = insts.iter().map(|c| &c[..]).collect();
+    let inst_refs: Vec<Vec<&[F]>> = insts.iter().map(|cols| cols.iter().map(|c| &c[..]).collect()).collect();
+    let inst_refs2: Vec<&[&[F]]> = inst_refs.iter().map(|c| &c[..]).collect();
     let mut tr = CircuitTranscript::<Blake2bState>::init();
     let res = mzkh::catch(|| {
         create_proof::<F, Scheme, _, _>(
             &m.params,
             &m.pk,
-            &[circuit.clone()],
+            circuits,
             nc,
-            &[&inst_refs[..]],
+            &inst_refs2,
             ChaCha8Rng::seed_from_u64(seed ^ 0xbeef),
             &mut tr,
         )
     });
     match res {
-        Err(p) => return Err(format!("prover panicked: {p}")),
-        Ok(Err(_)) => return Ok(false), // the prover itself refuses (e.g. lookup input not in table)
-        Ok(Ok(())) => {}
+        Err(p) => Err(format!("prover panicked: {p}")),
+        Ok(Err(_)) => Ok(None),
+        Ok(Ok(())) => Ok(Some(tr.finalize())),
     }
-    let proof = tr.finalize();
+}
+
+/// One identity-correspondence line of a verifier run.
+struct IdsLine {
+    op: String,
+    ans: String,
+}
+
+/// Real verifier on a proof, with the identity log on and every scalar read / challenge
+/// squeezed recorded. Returns the verdict and the `ids` correspondence line (absent when the
+/// verifier did not reach `PartiallyEvaluated::verify`).
+fn verify_recorded(m: &Member, proof: &[u8], insts: &[Vec<Vec<F>>]) -> Result<(bool, Option<IdsLine>), String> {
+    let nc = m.fp.n_committed;
     let domain = m.pk.get_vk().get_domain();
-    let coms: Vec<G1Projective> =
-        insts[..nc].iter().map(|c| commit_to_instances::<F, Scheme>(&m.params, domain, c)).collect();
-    let plain: Vec<&[F]> = insts[nc..].iter().map(|c| &c[..]).collect();
-    let mut vt = CircuitTranscript::<Blake2bState>::init_from_bytes(&proof);
+    let coms: Vec<Vec<G1Projective>> = insts
+        .iter()
+        .map(|cols| cols[..nc].iter().map(|c| commit_to_instances::<F, Scheme>(&m.params, domain, c)).collect())
+        .collect();
+    let com_refs: Vec<&[G1Projective]> = coms.iter().map(|c| &c[..]).collect();
+    let plain: Vec<Vec<&[F]>> = insts.iter().map(|cols| cols[nc..].iter().map(|c| &c[..]).collect()).collect();
+    let plain_refs: Vec<&[&[F]]> = plain.iter().map(|c| &c[..]).collect();
+    clear_identity_log();
+    valrec::take_stream();
+    let mut vt = valrec::ValTranscript::init_from_bytes(proof);
     let v = mzkh::catch(|| {
-        let g = match prepare::<F, Scheme, _>(m.pk.get_vk(), &[&coms[..]], &[&plain[..]], &mut vt) {
+        let g = match prepare::<F, Scheme, _>(m.pk.get_vk(), &com_refs, &plain_refs, &mut vt) {
             Ok(g) => g,
             Err(_) => return false,
         };
@@ -111,7 +210,55 @@ fn real_verdict(m: &Member, circuit: &FamCircuit, insts: &[Vec<F>], seed: u64) -
         }
         g.verify(&m.params.verifier_params()).is_ok()
     });
-    v.map_err(|p| format!("verifier panicked: {p}"))
+    let stream = valrec::take_stream();
+    let folds = take_identity_log();
+    let verdict = v.map_err(|p| format!("verifier panicked: {p}"))?;
+    if folds.is_empty() {
+        return Ok((verdict, None));
+    }
+    let inst_s = insts
+        .iter()
+        .map(|cols| {
+            if cols.len() == nc {
+                "_".to_string()
+            } else {
+                cols[nc..]
+                    .iter()
+                    .map(|c| list(c.iter().map(|v| mzkh::fe_hex(v)[2..].to_string()).collect(), ","))
+                    .collect::<Vec<_>>()
+                    .join("/")
+            }
+        })
+        .collect::<Vec<_>>()
+        .join("|");
+    let tr_s = list(stream.iter().map(|(k, h)| format!("{k}{h}")).collect(), ",");
+    let op = format!(
+        "ids p=73eda753299d7d483339d80809a1d80553bda402fffe5bfeffffffff00000001 {} nc={} inst={} tr={}",
+        m.ids_cs, nc, inst_s, tr_s
+    );
+    let ans = if folds.len() == 1 {
+        let f = &folds[0];
+        format!(
+            "n={} vals={} y={} xn={} h={}",
+            f.values.len(),
+            list(f.values.iter().map(|b| mzkh::le_bytes_hex(b)).collect(), ","),
+            mzkh::le_bytes_hex(&f.y),
+            mzkh::le_bytes_hex(&f.xn),
+            mzkh::le_bytes_hex(&f.expected_h_eval)
+        )
+    } else {
+        format!("folds={}", folds.len())
+    };
+    Ok((verdict, Some(IdsLine { op, ans })))
+}
+
+/// Real prover + verifier on (possibly faulted) circuit and instances.
+fn real_verdict(m: &Member, circuit: &FamCircuit, insts: &[Vec<F>], seed: u64) -> Result<(bool, Option<IdsLine>), String> {
+    let insts = vec![insts.to_vec()];
+    match prove(m, &[circuit.clone()], &insts, seed)? {
+        None => Ok((false, None)),
+        Some(proof) => verify_recorded(m, &proof, &insts),
+    }
 }
 
 #[allow(clippy::too_many_arguments)]
@@ -155,7 +302,7 @@ fn one_case(
             return;
         }
     };
-    let real = match real_verdict(m, circuit, insts, seed) {
+    let (real, ids) = match real_verdict(m, circuit, insts, seed) {
         Ok(b) => b,
         Err(e) => {
             ctx.oracle_fail(&format!("real-panic:{label}"), "prover/verifier panicked on a faulted witness", json!({"case": desc, "panic": e}));
@@ -174,6 +321,13 @@ fn one_case(
     let b = |x: bool| if x { "1" } else { "0" };
     let ans = format!("rowSat={} mock={} gt={} lookups={} copies={}", b(real), b(mock_ok), b(gt), b(lk), b(cp));
     ctx.case(label, nontrivial, &op, &ans);
+    match ids {
+        Some(l) => {
+            ctx.case(&format!("ids-{}", if label == "honest" { "honest" } else { "faulted" }), nontrivial, &l.op, &l.ans);
+            ctx.count(&format!("ids:verifier-{}", if real { "accepts" } else { "rejects" }));
+        }
+        None => ctx.count("ids:no-proof-or-no-fold"),
+    }
     ctx.count(&format!("verdict:{}", if mock_ok { "accept" } else { "reject" }));
     if !gt {
         ctx.count("rejected-by:gate-or-trash");
@@ -183,6 +337,9 @@ fn one_case(
     }
     if !cp {
         ctx.count("rejected-by:copy");
+    }
+    if std::env::var("C02_DEBUG").is_ok() {
+        eprintln!("case {label} {desc} real={real} mock={mock_ok} gt={gt} lk={lk} cp={cp} requested_copies_hold={} verdict={verdict:?}", requested_copies_hold(&mp, &m.copies));
     }
     if real && !requested_copies_hold(&mp, &m.copies) {
         ctx.oracle_fail(
@@ -201,8 +358,54 @@ fn one_case(
     }
 }
 
-fn run_member(ctx: &mut Ctx, fp: &FamParams, seed: u64, max_faults: usize) {
+/// Two circuits of the member (different witness seeds and instances) proven together: the
+/// identity list of the verifier is the per-proof list repeated proof after proof.
+fn two_proof_case(ctx: &mut Ctx, m: &Member, seed: u64) {
+    let circuits = vec![FamCircuit::new(m.fp.clone(), seed), FamCircuit::new(m.fp.clone(), seed + 1)];
+    let insts: Vec<Vec<Vec<F>>> = circuits.iter().map(|c| c.instances()).collect();
+    match prove(m, &circuits, &insts, seed) {
+        Ok(Some(proof)) => match verify_recorded(m, &proof, &insts) {
+            Ok((ok, Some(l))) => {
+                ctx.case("ids-honest-2proofs", true, &l.op, &l.ans);
+                ctx.count(&format!("ids:2proofs-verifier-{}", if ok { "accepts" } else { "rejects" }));
+            }
+            other => ctx.count(&format!("ids:2proofs-no-fold:{}", other.is_ok())),
+        },
+        other => ctx.count(&format!("ids:2proofs-no-proof:{}", other.is_ok())),
+    }
+}
+
+/// `omega` of the evaluation domain of size `2^k` and `F::DELTA`, as the running code has them.
+fn domain_case(ctx: &mut Ctx, m: &Member, seen: &mut std::collections::BTreeSet<u32>) {
+    if seen.insert(m.k) {
+        let omega = m.pk.get_vk().get_domain().get_omega();
+        ctx.case(
+            "domain",
+            true,
+            &format!("domain k={}", m.k),
+            &format!("omega={} delta={}", mzkh::fe_hex(&omega), mzkh::fe_hex(&<F as PrimeField>::DELTA)),
+        );
+    }
+}
+
+fn run_member(ctx: &mut Ctx, fp: &FamParams, seed: u64, max_faults: usize, two_proofs: bool, seen_k: &mut std::collections::BTreeSet<u32>) {
     let m = setup_member(fp, seed);
+    domain_case(ctx, &m, seen_k);
+    {
+        // what the identity list of this member consists of
+        let cs = m.pk.get_vk().cs();
+        let pc = cs.permutation().get_columns().len();
+        let chunk = cs.degree() - 2;
+        ctx.count(&format!("member:perm-sets={}", pc.div_ceil(chunk)));
+        ctx.count(&format!("member:degree={}", cs.degree()));
+        ctx.count(&format!("member:lookups={}", cs.lookups().len()));
+        ctx.count(&format!("member:trash={}", cs.trashcans().len()));
+        ctx.count(&format!("member:gate-polys={}", cs.gates().iter().map(|g| g.polynomials().len()).sum::<usize>()));
+        ctx.count(&format!("member:k={}", m.k));
+    }
+    if two_proofs {
+        two_proof_case(ctx, &m, seed);
+    }
     let base = FamCircuit::new(fp.clone(), seed);
     let insts = base.instances();
     let desc0 = json!({"params": format!("{fp:?}"), "seed": seed, "k": m.k});
@@ -220,6 +423,16 @@ fn run_member(ctx: &mut Ctx, fp: &FamParams, seed: u64, max_faults: usize) {
     }
     picks.truncate(max_faults);
     for (idx, kind) in picks {
+        // `FaultKind::Neighbour` takes "the previously assigned KNOWN value": on a member with
+        // second-phase advice that value differs between synthesis passes (phase-1 cells are
+        // unknown in the first pass). The real prover keeps first-phase columns from the first
+        // pass, `MockProver` overwrites every cell in every pass, so the two would be run on
+        // DIFFERENT assignments (observed: VERIF_SEED=2, member 2004, the real witness happened
+        // to be valid). Such a pair says nothing about the property; it is skipped and counted.
+        if kind == FaultKind::Neighbour && fp.n_adv1 > 0 {
+            ctx.count("skipped:neighbour-fault-on-two-phase-member");
+            continue;
+        }
         let mut c = base.clone();
         c.fault = Some((idx, kind));
         let mut d = desc0.clone();
@@ -236,17 +449,53 @@ fn run_member(ctx: &mut Ctx, fp: &FamParams, seed: u64, max_faults: usize) {
     }
 }
 
+/// Failing-input search (run when a theorem or a correspondence broke): for every constraint
+/// class a small member exercising it, with EVERY advice assignment x every fault kind, so that
+/// a witness violating only that class is certainly among the inputs. An accepted proof from an
+/// assignment the checker rejects is the replay (`oracle_fail` in `one_case`).
+fn search_members() -> Vec<FamParams> {
+    let base = FamParams { steps: 3, ..FamParams::default() };
+    let mut v = vec![
+        // additive-selector (trash) constraints
+        FamParams { gates: vec![GateKind::Additive], copies: false, inst_copies: false, ..base.clone() },
+        // copy constraints: advice-advice, advice-constant, advice-instance (committed and plain)
+        FamParams { gates: vec![GateKind::Mul], copies: true, inst_copies: false, steps: 5, ..base.clone() },
+        FamParams { gates: vec![GateKind::Mul], copies: false, const_copies: true, inst_copies: false, ..base.clone() },
+        FamParams { gates: vec![GateKind::Mul], copies: false, inst_copies: true, n_committed: 1, n_plain: 1, ..base.clone() },
+        FamParams { gates: vec![GateKind::Mul], unblinded: true, copies: false, inst_copies: false, ..base.clone() },
+    ];
+    for l in [LookupKind::Range, LookupKind::Pair, LookupKind::AnyInstance] {
+        v.push(FamParams { gates: vec![GateKind::Mul], lookups: vec![l], copies: false, inst_copies: false, steps: 4, ..base.clone() });
+    }
+    for g in [GateKind::Mul, GateKind::LinRot, GateKind::Pow(3), GateKind::Pow(6), GateKind::Complex, GateKind::NextFirst, GateKind::InstRot] {
+        v.push(FamParams { gates: vec![g], copies: false, inst_copies: false, ..base.clone() });
+    }
+    v.push(FamParams { gates: vec![GateKind::Chal], n_adv1: 1, copies: false, inst_copies: false, ..base.clone() });
+    v
+}
+
 fn main() {
     let mut ctx = Ctx::from_args("C02");
     let mut rng = ctx.rng("family");
+    let mut seen_k = std::collections::BTreeSet::new();
+    if ctx.search() {
+        for (i, fp) in search_members().iter().enumerate() {
+            run_member(&mut ctx, fp, 5000 + i as u64, usize::MAX, false, &mut seen_k);
+        }
+        for i in 0..6 {
+            let fp = sample_params(&mut rng);
+            run_member(&mut ctx, &fp, 6000 + i as u64, 60, false, &mut seen_k);
+        }
+        ctx.finish();
+        return;
+    }
     let (n_members, per_member) = match ctx.tier.as_str() {
         "quick" => (10, 24),
-        "thorough" => (40, 60),
-        _ => (16, 40),
+        _ => (40, 60),
     };
     // corpus first: a member with an additive-selector gate (defect D2), one with every class
     let d2 = FamParams { gates: vec![GateKind::Additive], steps: 3, ..FamParams::default() };
-    run_member(&mut ctx, &d2, 21, per_member);
+    run_member(&mut ctx, &d2, 21, per_member, true, &mut seen_k);
     let every = FamParams {
         n_adv0: 4,
         n_adv1: 1,
@@ -261,12 +510,30 @@ fn main() {
         steps: 9,
         table_bits: 3,
     };
-    run_member(&mut ctx, &every, 22, per_member * 2);
+    run_member(&mut ctx, &every, 22, per_member * 2, true, &mut seen_k);
     let inst_rot = FamParams { gates: vec![GateKind::InstRot, GateKind::Mul], n_committed: 0, n_plain: 1, ..FamParams::default() };
-    run_member(&mut ctx, &inst_rot, 23, per_member);
+    run_member(&mut ctx, &inst_rot, 23, per_member, true, &mut seen_k);
+    // no copy constraint at all: the permutation argument is empty (no permutation identity)
+    let no_perm = FamParams {
+        gates: vec![GateKind::Mul, GateKind::Additive],
+        lookups: vec![LookupKind::Range],
+        copies: false,
+        inst_copies: false,
+        ..FamParams::default()
+    };
+    run_member(&mut ctx, &no_perm, 24, per_member / 2, true, &mut seen_k);
+    // degree 6 and four permutation columns (three advice + the constants column): ONE column
+    // set, i.e. permFirst, permLast and a single product rule, no chain rule
+    let one_set = FamParams { gates: vec![GateKind::Pow(6)], n_adv0: 3, n_plain: 0, inst_copies: false, ..FamParams::default() };
+    run_member(&mut ctx, &one_set, 25, per_member / 2, false, &mut seen_k);
+    // replay aid: `C02_ONLY_MEMBER=<member seed>` runs only that sampled member
+    let only: Option<u64> = std::env::var("C02_ONLY_MEMBER").ok().and_then(|s| s.parse().ok());
     for i in 0..n_members {
         let fp = sample_params(&mut rng);
-        run_member(&mut ctx, &fp, 2000 + i as u64, per_member);
+        if only.is_some() && only != Some(2000 + i as u64) {
+            continue;
+        }
+        run_member(&mut ctx, &fp, 2000 + i as u64, per_member, i % 3 == 0, &mut seen_k);
     }
     ctx.finish();
 }
